@@ -43,38 +43,102 @@ pub struct Case {
     pub k: usize,
     pub layout: &'static str, // one_file | stdin | many_files
     pub single_table: bool,
+    /// format of the input data
+    pub src: Fmt,
+    /// true: xt must find the format by content (no -f, no telling file extension)
+    pub detect: bool,
 }
 
 impl Case {
     fn json(&self) -> Value {
-        json!({"to": self.to.name(), "k": self.k, "layout": self.layout, "single_table": self.single_table})
+        json!({"to": self.to.name(), "k": self.k, "layout": self.layout, "single_table": self.single_table, "source": self.src.name(), "detect": self.detect})
+    }
+}
+
+/// A large input in format `src` (made from the JSON rows with the library
+/// itself; it is only input here, never an oracle). None if it cannot be made.
+fn big_input(src: Fmt, bytes: usize, single_table: bool) -> Option<Vec<u8>> {
+    use std::collections::HashMap;
+    use std::sync::{Mutex, OnceLock};
+    static CACHE: OnceLock<Mutex<HashMap<(u8, usize, bool), Option<Vec<u8>>>>> = OnceLock::new();
+    let single = single_table || src == Fmt::Toml;
+    let key = (src as u8, bytes, single);
+    let cache = CACHE.get_or_init(|| Mutex::new(HashMap::new()));
+    if let Some(v) = cache.lock().unwrap().get(&key) {
+        return v.clone();
+    }
+    let j = big_json(bytes, single);
+    let v = if src == Fmt::Json {
+        Some(j)
+    } else {
+        let o = crate::run::run_slice(&j, Some(Fmt::Json), src);
+        if o.verdict.is_ok() {
+            Some(o.out)
+        } else {
+            None
+        }
+    };
+    cache.lock().unwrap().insert(key, v.clone());
+    v
+}
+
+/// Names the input so that the CLI resolves the source format as the case wants.
+fn file_name(stem: &str, src: Fmt, detect: bool) -> String {
+    if detect {
+        stem.to_string()
+    } else {
+        format!("{stem}.{}", match src {
+            Fmt::Json => "json",
+            Fmt::Msgpack => "msgpack",
+            Fmt::Toml => "toml",
+            Fmt::Yaml => "yaml",
+        })
     }
 }
 
 pub fn judge_pipe(case: &Case, acc: &mut Acc) {
     acc.evals += 1;
     let sc = Scratch::new();
-    let single = case.single_table || case.to == Fmt::Toml;
+    let single = case.single_table || case.to == Fmt::Toml || case.src == Fmt::Toml;
     let mut argv: Vec<String> = vec!["-t".into(), case.to.name().into()];
     let mut stdin = StdinKind::Null;
+    let many = case.layout == "many_files" && case.to != Fmt::Toml;
+    let Some(data) = big_input(case.src, if many { 400 << 10 } else { 3 << 20 }, if many { false } else { single }) else {
+        acc.inconclusive += 1;
+        return;
+    };
+    // the library must be able to translate this input the way the CLI will be asked to, with far more output than k
+    let probe = crate::run::run_slice(&data, if case.detect { None } else { Some(case.src) }, case.to);
+    if !probe.verdict.is_ok() || probe.out.len() * (if many { 10 } else { 1 }) < case.k + (1 << 20) {
+        acc.count("skipped_library_cannot_produce_enough_output");
+        return;
+    }
     match case.layout {
-        "stdin" => stdin = StdinKind::Bytes(big_json(3 << 20, single)),
-        "many_files" if !single => {
+        "stdin" => {
+            if !case.detect {
+                argv.push("-f".into());
+                argv.push(case.src.name().into());
+            }
+            stdin = StdinKind::Bytes(data);
+        }
+        "many_files" if many => {
             for i in 0..10 {
-                let n = format!("part{i}.json");
-                sc.file(&n, &big_json(400 << 10, false));
+                let n = file_name(&format!("part{i}"), case.src, case.detect);
+                sc.file(&n, &data);
                 argv.push(n);
             }
         }
         _ => {
-            sc.file("big.json", &big_json(3 << 20, single));
-            argv.push("big.json".into());
+            let n = file_name("big", case.src, case.detect);
+            sc.file(&n, &data);
+            argv.push(n);
         }
     }
     let out = procmon::run(Run { bin: &procmon::release_bin(), argv: argv.clone(), cwd: sc.path(), stdin, stdout: StdoutKind::CloseAfter(case.k), wall_secs: 120, cpu_secs: 60 });
     acc.count(&format!("closing_point_k_{}", case.k));
     acc.count(&format!("layout_{}", case.layout));
     acc.count(&format!("target_{}", case.to.name()));
+    acc.count(&format!("source_{}{}", case.src.name(), if case.detect { "_detected" } else { "" }));
     if matches!(out.status, Status::Timeout | Status::SpawnError(_)) {
         acc.inconclusive += 1;
         return;
@@ -89,7 +153,105 @@ pub fn judge_pipe(case: &Case, acc: &mut Acc) {
     if ok {
         acc.count("killed_by_sigpipe_silently");
     } else {
-        acc.violation(Violation { sig: format!("closed pipe to={} {}: {}", case.to.name(), case.layout, if out.status == Status::Signal(libc::SIGPIPE) { "stderr not empty".to_string() } else { out.status.show() }), case: case.json(), observed: format!("status {}, stderr [{}]", out.status.show(), preview(&out.stderr, 200)), expected: "killed by SIGPIPE with nothing on stderr".into() });
+        acc.violation(Violation { sig: format!("closed pipe {}{}->{} {}: {}", case.src.name(), if case.detect { "(detected)" } else { "" }, case.to.name(), case.layout, if out.status == Status::Signal(libc::SIGPIPE) { "stderr not empty".to_string() } else { out.status.show() }), case: case.json(), observed: format!("status {}, stderr [{}]", out.status.show(), preview(&out.stderr, 200)), expected: "killed by SIGPIPE with nothing on stderr".into() });
+    }
+}
+
+/// A small document (a few hundred bytes at most) in each format.
+fn small_input(src: Fmt, variant: usize) -> Vec<u8> {
+    let j: &[u8] = match variant % 3 {
+        0 => b"{\"late\": [1, 2, 3]}\n",
+        1 => b"{\"a\": {\"b\": \"text\", \"c\": [true, 1.5]}, \"d\": \"x\"}\n",
+        _ => b"{\"rows\": [{\"id\": 1, \"t\": \"one\"}, {\"id\": 2, \"t\": \"two\"}, {\"id\": 3, \"t\": \"three\"}]}\n",
+    };
+    if src == Fmt::Json {
+        return j.to_vec();
+    }
+    crate::run::run_slice(j, Some(Fmt::Json), src).out
+}
+
+/// The consumer is gone BEFORE any input arrives: stdin delivers the (small or
+/// medium) input only after the read end of stdout has been closed, so whatever
+/// xt writes - during translation or in its final flush - meets a closed pipe.
+pub fn judge_consumer_gone_first(src: Fmt, detect: bool, to: Fmt, size: &'static str, variant: usize, acc: &mut Acc) {
+    let data = match size {
+        "small" => small_input(src, variant),
+        _ => match big_input(src, 40 << 10, true) {
+            Some(d) => d,
+            None => return,
+        },
+    };
+    let probe = crate::run::run_mode(&data, &crate::run::Mode::Reader(crate::mon::Sched::All), if detect { None } else { Some(src) }, to);
+    if !probe.verdict.is_ok() || probe.out.is_empty() {
+        acc.count("skipped_library_cannot_produce_enough_output");
+        return;
+    }
+    acc.evals += 1;
+    let sc = Scratch::new();
+    let mut argv: Vec<String> = vec!["-t".into(), to.name().into()];
+    if !detect {
+        argv.push("-f".into());
+        argv.push(src.name().into());
+    }
+    if variant % 2 == 1 {
+        argv.push("-".into());
+    }
+    let out = procmon::run(Run { bin: &procmon::release_bin(), argv, cwd: sc.path(), stdin: StdinKind::BytesAfterConsumerLeft(data), stdout: StdoutKind::CloseAfter(0), wall_secs: 120, cpu_secs: 60 });
+    acc.count("consumer_gone_first_runs");
+    acc.count(&format!("consumer_gone_first_{}{}_{}", src.name(), if detect { "_detected" } else { "" }, size));
+    if matches!(out.status, Status::Timeout | Status::SpawnError(_)) {
+        acc.inconclusive += 1;
+        return;
+    }
+    if out.status == Status::Signal(libc::SIGPIPE) && out.stderr.is_empty() {
+        acc.count("killed_by_sigpipe_silently");
+    } else {
+        acc.violation(Violation { sig: format!("consumer gone before the input arrived {}{}->{} {}: {}", src.name(), if detect { "(detected)" } else { "" }, to.name(), size, out.status.show()), case: json!({"consumer_gone_first": true, "source": src.name(), "detect": detect, "to": to.name(), "size": size, "variant": variant}), observed: format!("status {}, stderr [{}]", out.status.show(), preview(&out.stderr, 200)), expected: "killed by SIGPIPE with nothing on stderr (never exit status 0 with output missing)".into() });
+    }
+}
+
+/// stdout on /dev/full, the input on stdin: every combination of source format,
+/// detection, target and size class must end with status 1 and a message.
+pub fn judge_devfull_stdin(src: Fmt, detect: bool, to: Fmt, size: &'static str, variant: usize, acc: &mut Acc) {
+    let data = match size {
+        "small" => small_input(src, variant),
+        _ => match big_input(src, 40 << 10, true) {
+            Some(d) => d,
+            None => return,
+        },
+    };
+    let probe = crate::run::run_mode(&data, &crate::run::Mode::Reader(crate::mon::Sched::All), if detect { None } else { Some(src) }, to);
+    if !probe.verdict.is_ok() || probe.out.is_empty() {
+        acc.count("skipped_library_cannot_produce_enough_output");
+        return;
+    }
+    acc.evals += 1;
+    let sc = Scratch::new();
+    let mut argv: Vec<String> = vec!["-t".into(), to.name().into()];
+    let mut stdin = StdinKind::Null;
+    if variant % 2 == 0 {
+        if !detect {
+            argv.push("-f".into());
+            argv.push(src.name().into());
+        }
+        stdin = StdinKind::Bytes(data);
+    } else {
+        let n = file_name("in", src, detect);
+        sc.file(&n, &data);
+        argv.push(n);
+    }
+    let out = procmon::run(Run { bin: &procmon::release_bin(), argv, cwd: sc.path(), stdin, stdout: StdoutKind::DevFull, wall_secs: 60, cpu_secs: 30 });
+    acc.count("dev_full_runs");
+    acc.count(&format!("dev_full_{}{}_{}_{}", src.name(), if detect { "_detected" } else { "" }, size, if variant % 2 == 0 { "stdin" } else { "file" }));
+    if matches!(out.status, Status::Timeout | Status::SpawnError(_)) {
+        acc.inconclusive += 1;
+        return;
+    }
+    let err = String::from_utf8_lossy(&out.stderr);
+    if out.status != Status::Exit(1) || !err.starts_with("xt error") {
+        acc.violation(Violation { sig: format!("/dev/full {}{}->{} {} {}: {}", src.name(), if detect { "(detected)" } else { "" }, to.name(), size, if variant % 2 == 0 { "stdin" } else { "file" }, out.status.show()), case: json!({"devfull_matrix": true, "source": src.name(), "detect": detect, "to": to.name(), "size": size, "variant": variant}), observed: format!("status {}, stderr [{}]", out.status.show(), preview(&out.stderr, 200)), expected: "exit 1 and a message beginning 'xt error'".into() });
+    } else {
+        acc.count("dev_full_status_1_with_message");
     }
 }
 
@@ -133,13 +295,28 @@ pub fn judge_devfull(to: Fmt, bytes: usize, acc: &mut Acc) {
 pub fn cases(ctx: &Ctx) -> Vec<Case> {
     let mut v = vec![];
     let layouts: &[&'static str] = &["one_file", "stdin", "many_files"];
+    let sources = [Fmt::Json, Fmt::Yaml, Fmt::Msgpack, Fmt::Toml];
     for (ti, to) in ALL.iter().enumerate() {
         for (ki, k) in KS.iter().enumerate() {
             for (li, layout) in layouts.iter().enumerate() {
-                // quick: a rotating third of the layouts per (target, k); thorough: all
-                let _ = (ti, ki, li);
-                {
-                    v.push(Case { to: *to, k: *k, layout, single_table: (ki + li) % 2 == 0 });
+                let single_table = (ki + li) % 2 == 0;
+                // JSON source named explicitly: every (target, k, layout)
+                v.push(Case { to: *to, k: *k, layout, single_table, src: Fmt::Json, detect: false });
+                if ctx.thorough() {
+                    // thorough: every source format, named and detected
+                    for src in sources {
+                        for detect in [false, true] {
+                            if !(src == Fmt::Json && !detect) {
+                                v.push(Case { to: *to, k: *k, layout, single_table, src, detect });
+                            }
+                        }
+                    }
+                } else {
+                    // quick: one more (source, detection) choice per (target, k, layout), rotating with the seed
+                    let r = ti * 7 + ki * 3 + li + ctx.seed as usize;
+                    let choices = [(Fmt::Yaml, false), (Fmt::Yaml, true), (Fmt::Msgpack, false), (Fmt::Msgpack, true), (Fmt::Toml, false), (Fmt::Toml, true), (Fmt::Json, true)];
+                    let (src, detect) = choices[r % choices.len()];
+                    v.push(Case { to: *to, k: *k, layout, single_table, src, detect });
                 }
             }
         }
@@ -149,7 +326,10 @@ pub fn cases(ctx: &Ctx) -> Vec<Case> {
         for to in ALL {
             for base in [8192usize, 16384, 65536, 131072, 262144] {
                 for d in [-2i64, -1, 0, 1, 2] {
-                    v.push(Case { to, k: (base as i64 + d) as usize, layout: "one_file", single_table: false });
+                    for (src, detect) in [(Fmt::Json, false), (Fmt::Yaml, true), (Fmt::Msgpack, false)] {
+                        v.push(Case { to, k: (base as i64 + d) as usize, layout: "one_file", single_table: false, src, detect });
+                        v.push(Case { to, k: (base as i64 + d) as usize, layout: "stdin", single_table: false, src, detect });
+                    }
                 }
             }
         }
@@ -169,15 +349,34 @@ pub fn run(ctx: &Ctx) -> i32 {
             judge_devfull(to, bytes, &mut acc);
         }
     }
+    // matrices: consumer gone before the input arrives; /dev/full with every source
+    let mut matrix = vec![];
+    for src in ALL {
+        for detect in [false, true] {
+            for to in ALL {
+                for size in ["small", "medium"] {
+                    for variant in 0..(if ctx.thorough() { 6 } else { 2 }) {
+                        matrix.push((src, detect, to, size, variant));
+                    }
+                }
+            }
+        }
+    }
+    let m_acc = crate::par::run(matrix.len(), 1, |i, acc| {
+        let (src, detect, to, size, variant) = matrix[i];
+        judge_consumer_gone_first(src, detect, to, size, variant, acc);
+        judge_devfull_stdin(src, detect, to, size, variant, acc);
+    });
+    acc.merge(m_acc);
     // TOML takes one input only; the other three targets get the late-input layout
     for to in [Fmt::Json, Fmt::Msgpack, Fmt::Yaml] {
         for (k, first) in [(0usize, 300usize), (4, 300), (4, 20_000), (100, 9_000), (1, 40_000)] {
             judge_late_small_input(to, k, first, &mut acc);
         }
     }
-    let rule = format!("{} closing-pipe runs: the consumer takes exactly k bytes for k in {:?} and closes while more than 1 MiB of output remains, x 4 targets x input layouts (one 3 MiB file, 3 MiB on stdin, ten 400 KiB files so that the failure is also met in the per-input flush), single-table and multi-document inputs; plus 16 runs with stdout on /dev/full (outputs below and above the 8 KiB buffer) and 15 runs in which the consumer leaves after the first input's output and a second, small input arrives only afterwards (failure met in the per-input flush); distinct non-trivial = distinct (target, k, layout) cases", cs.len(), KS);
+    let rule = format!("{} closing-pipe runs: the consumer takes exactly k bytes for k in {:?} and closes while more than 1 MiB of output remains, x 4 targets x input layouts (one 3 MiB file, 3 MiB on stdin, ten 400 KiB files so that the failure is also met in the per-input flush), single-table and multi-document inputs, JSON input named explicitly for every case plus (quick) one rotating or (thorough) every other choice of source format JSON/YAML/MessagePack/TOML, named or detected; a matrix source x named/detected x target x small/40 KiB input in which the consumer is gone before stdin delivers anything (failure met in the final flush for small outputs) and the same matrix with stdout on /dev/full (stdin and file); plus 16 runs with stdout on /dev/full (outputs below and above the 8 KiB buffer) and 15 runs in which the consumer leaves after the first input's output and a second, small input arrives only afterwards (failure met in the per-input flush); distinct non-trivial = distinct (target, k, layout) cases", cs.len(), KS);
     ev::finish(
-        Finish { ctx, level: "fault_enumeration", rule, assumptions: vec!["the kernel's pipe semantics: a write to a pipe whose read end is closed fails with EPIPE".into(), "a run in which the consumer could not obtain k bytes is inconclusive, not a violation".into()], extra: serde_json::Map::new(), exhaustive: false, min_distinct: 40, must_reach: vec![("killed_by_sigpipe_silently".into(), 40), ("dev_full_runs".into(), 16), ("late_small_input_runs".into(), 15), ("layout_many_files".into(), 5), ("layout_stdin".into(), 5)] },
+        Finish { ctx, level: "fault_enumeration", rule, assumptions: vec!["the kernel's pipe semantics: a write to a pipe whose read end is closed fails with EPIPE".into(), "a run in which the consumer could not obtain k bytes is inconclusive, not a violation".into()], extra: serde_json::Map::new(), exhaustive: false, min_distinct: 40, must_reach: vec![("killed_by_sigpipe_silently".into(), 40), ("dev_full_runs".into(), 16), ("dev_full_status_1_with_message".into(), 100), ("consumer_gone_first_runs".into(), 100), ("source_yaml_detected".into(), 3), ("source_msgpack".into(), 3), ("late_small_input_runs".into(), 15), ("layout_many_files".into(), 5), ("layout_stdin".into(), 5)] },
         acc,
     )
 }
@@ -186,7 +385,16 @@ pub fn replay(v: &Value) -> i32 {
     let c = &v["case"];
     let mut acc = Acc::default();
     let Some(to) = c["to"].as_str().and_then(Fmt::parse) else { return 2 };
-    if c["late_small_input"].as_bool() == Some(true) {
+    if c["consumer_gone_first"].as_bool() == Some(true) || c["devfull_matrix"].as_bool() == Some(true) {
+        let Some(src) = c["source"].as_str().and_then(Fmt::parse) else { return 2 };
+        let size: &'static str = if c["size"].as_str() == Some("small") { "small" } else { "medium" };
+        let (detect, variant) = (c["detect"].as_bool().unwrap_or(false), c["variant"].as_u64().unwrap_or(0) as usize);
+        if c["consumer_gone_first"].as_bool() == Some(true) {
+            judge_consumer_gone_first(src, detect, to, size, variant, &mut acc);
+        } else {
+            judge_devfull_stdin(src, detect, to, size, variant, &mut acc);
+        }
+    } else if c["late_small_input"].as_bool() == Some(true) {
         judge_late_small_input(to, c["k"].as_u64().unwrap_or(0) as usize, c["first_bytes"].as_u64().unwrap_or(300) as usize, &mut acc);
     } else if c["devfull"].as_bool() == Some(true) {
         judge_devfull(to, c["bytes"].as_u64().unwrap_or(200) as usize, &mut acc);
@@ -196,7 +404,7 @@ pub fn replay(v: &Value) -> i32 {
             Some("many_files") => "many_files",
             _ => "one_file",
         };
-        judge_pipe(&Case { to, k: c["k"].as_u64().unwrap_or(0) as usize, layout, single_table: c["single_table"].as_bool().unwrap_or(false) }, &mut acc);
+        judge_pipe(&Case { to, k: c["k"].as_u64().unwrap_or(0) as usize, layout, single_table: c["single_table"].as_bool().unwrap_or(false), src: c["source"].as_str().and_then(Fmt::parse).unwrap_or(Fmt::Json), detect: c["detect"].as_bool().unwrap_or(false) }, &mut acc);
     }
     if acc.vio_count > 0 {
         println!("VIOLATION property=C16 replay=<this file> (reproduced): {}", acc.violations[0].observed);
